@@ -244,8 +244,25 @@ package flags
 
 //@ assumed func (x *multiTag) Get(key string) (r string)
 //@   pure
-//@ assumed func (option *Option) empty()
+// Emptying an option replaces the field by a fresh empty value of its type (a
+// new map, the zero value otherwise) through one reflect Set - it never
+// truncates or reuses what the field held (C01: a slice the user pre-set may
+// share storage with other fields); function options are left alone.
+//@ assumed func reflect.Zero(t reflect.Type) (v reflect.Value)
+//@   pure
+//@ func (option *Option) emptyValue() (r reflect.Value)
+//@   props C01 C05 C04
+//@   requires option != nil
+//@   ensures[C01] option.value.Type().Kind() != reflect.Map ==> r == reflect.Zero(option.value.Type())
+//@   assigns nothing
+//@ func (option *Option) empty()
+//@   props C01 C05 C04
 //@   traced
+//@   requires option != nil
+//@   let n0 := ncalls(reflect.Value.Set)
+//@   ensures[C01,C05] option.isFunc() ==> ncalls(reflect.Value.Set) == n0
+//@   ensures[C01,C05] !option.isFunc() ==> ncalls(reflect.Value.Set) == n0 + 1 && callarg(reflect.Value.Set, n0, 0) == option.value && (option.value.Type().Kind() != reflect.Map ==> callarg(reflect.Value.Set, n0, 1) == reflect.Zero(option.value.Type()))
+//@   assigns nothing
 //@ assumed func (option *Option) call(value *string) (err error)
 //@   traced
 //@   ensures is(err, *Error) ==> as(err, *Error) != nil
